@@ -53,8 +53,11 @@ func postNever(h HistEntry) string {
 	if !strings.HasPrefix(h.Op.Line, "cmd ") {
 		return ""
 	}
-	if strings.HasPrefix(h.Impl, "panic") {
+	if strings.HasPrefix(h.Impl, "panic") || strings.HasPrefix(h.Impl, "crash") {
 		return "the command panicked"
+	}
+	if strings.HasPrefix(h.Impl, "timeout") {
+		return "the command did not return (blocked for 20 s)"
 	}
 	if strings.Contains(h.Impl, "!lockleak") {
 		return "a file stayed locked after the command returned"
